@@ -517,6 +517,7 @@ func runC15(c *Check) {
 		{code: "globalThis.__f = function(H) {\nfunction g() { { var arguments } return arguments.length } return g(1, 2);\n};"},
 	}, "known-probes")
 	c15MultiFile(c, pool)
+	c15CrossChunkNames(c, pool)
 	c15MangleProps(c, pool)
 }
 
